@@ -309,7 +309,7 @@ def fam_leak(w: World) -> None:
 
 FAMILIES = {'history': fam_history, 'threads': fam_threads, 'tasks': fam_tasks, 'leak': fam_leak}
 PLAN = {
-    'quick': {'history': 1500, 'threads': 1200, 'tasks': 2500, 'leak': 2000},
+    'quick': {'history': 2100, 'threads': 1700, 'tasks': 3500, 'leak': 2800},
     'thorough': {'history': 10000, 'threads': 10000, 'tasks': 20000, 'leak': 10000},
 }
 CHUNK = 25
